@@ -63,3 +63,49 @@ func VerifH_C04_IDCT(which, bound int) {
 	}
 	verifapi.Cover(true, "compared")
 }
+
+// VerifH_C04_Predict: every intra predictor of the decoder equals the reference decoder's predictor
+// (x/image/vp8 predfunc.go, written from RFC 6386 chapter 12) for all border samples.
+//   n: block size 4 (10 modes, top-right overhang included), 8 (chroma) or 16 (luma); mode: this
+//   package's mode index (0 DC, 1 TM, 2 VE, 3 HE; for 4x4: 4 RD, 5 VR, 6 LD, 7 VL, 8 HD, 9 HU; for 8/16:
+//   4 DC without top, 5 DC without left, 6 DC without both).
+func VerifH_C04_Predict(n, mode int) {
+	Init()
+	buf := make([]byte, (n+1)*BPS)
+	for i := range buf {
+		buf[i] = verifapi.U8("residue") // whatever the block area and the rest of the buffer hold
+	}
+	off := BPS + 8
+	ntop := n
+	if n == 4 {
+		ntop = 8
+	}
+	tl := buf[off-BPS-1]
+	top := make([]uint8, ntop)
+	for i := range top {
+		top[i] = buf[off-BPS+i]
+	}
+	left := make([]uint8, n)
+	for j := range left {
+		left[j] = buf[off-1+j*BPS]
+	}
+	refMode := mode
+	if n != 4 && mode >= 4 {
+		refMode = 10 + (mode - 4) // predDCTop, predDCLeft, predDCTopLeft
+	}
+	want := ref.VerifPredict(n, refMode, tl, top, left)
+	switch n {
+	case 4:
+		PredLuma4Direct(mode, buf, off)
+	case 8:
+		PredChroma8Direct(mode, buf, off)
+	case 16:
+		PredLuma16Direct(mode, buf, off)
+	}
+	for j := 0; j < n; j++ {
+		for i := 0; i < n; i++ {
+			verifapi.Assert(buf[off+j*BPS+i] == want[j*n+i], "predicted sample equals the reference predictor's")
+		}
+	}
+	verifapi.Cover(true, "compared")
+}
